@@ -274,7 +274,16 @@ func cmdLed(args []string) error {
 					res.ReturnMs = time.Since(t0).Milliseconds()
 					close(stopFlood)
 					alive = false
-					time.Sleep(30 * time.Millisecond) // the final (all red) frame is written just before the LED goroutine ends
+					// the final (all red) frame is written just before the LED goroutine ends; the server may still have to read
+					// it: wait until no further frame has arrived for 60 ms (at most one second)
+					for t1, last, stable := time.Now(), srv.frameCount(), time.Now(); time.Since(t1) < time.Second; {
+						time.Sleep(5 * time.Millisecond)
+						if c := srv.frameCount(); c != last {
+							last, stable = c, time.Now()
+						} else if time.Since(stable) >= 60*time.Millisecond {
+							break
+						}
+					}
 					res.Leftover = deviceGoroutines()
 					res.ReqAfter = atomic.LoadInt64(&srv.reqs) - q0
 				default:
